@@ -98,6 +98,7 @@ func (_this *Session) RegisterBuilderGeneratorForType(dstType reflect.Type, buil
 // doesn't yet exist, a new default generator will be generated and registered.
 // This method is thread-safe.
 func (_this *Session) GetBuilderGeneratorForType(dstType reflect.Type) BuilderGenerator {
+	verifGate("load", dstType)
 	storedIterator, ok := _this.builderGenerators.Load(dstType)
 	if ok {
 		return storedIterator.(BuilderGenerator)
@@ -107,7 +108,9 @@ func (_this *Session) GetBuilderGeneratorForType(dstType reflect.Type) BuilderGe
 	var builderGenerator BuilderGenerator
 
 	wg.Add(1)
+	verifGate("loadorstore", dstType)
 	storedBuilderGenerator, loaded := _this.builderGenerators.LoadOrStore(dstType, BuilderGenerator(func(ctx *Context) Builder {
+		verifGate("wait", dstType)
 		wg.Wait()
 		return builderGenerator(ctx)
 	}))
@@ -115,8 +118,11 @@ func (_this *Session) GetBuilderGeneratorForType(dstType reflect.Type) BuilderGe
 		return storedBuilderGenerator.(BuilderGenerator)
 	}
 
+	verifGate("generate", dstType)
 	builderGenerator = _this.defaultBuilderGeneratorForType(dstType)
+	verifGate("done", dstType)
 	wg.Done()
+	verifGate("store", dstType)
 	_this.builderGenerators.Store(dstType, builderGenerator)
 	return builderGenerator
 }
